@@ -54,6 +54,13 @@ func (e *specEnv) fail(format string, a ...any) {
 func (x *fnv) bindLocals(env *specEnv, lp *loopCtx) {
 	env.lp = lp
 	env.pos = x.curPos
+	for n, v := range x.paramVals {
+		if strings.HasPrefix(n, "arg") && v.T != nil {
+			if _, ok := env.vars[n]; !ok {
+				env.vars[n] = v
+			}
+		}
+	}
 	if lp != nil && lp.pos.IsValid() {
 		env.pos = lp.pos
 	}
@@ -705,6 +712,17 @@ func (e *specEnv) evalModTargets(ex SExpr) []modTarget {
 				return []modTarget{{prefix: rn, match: func(ref, idx *Term) *Term { return c.Eq(ref, owner.Term) }}}
 			case "nothing":
 				return nil
+			case "when":
+				// when(cond, target, ...): the targets only if cond holds
+				cond := e.withPol(0).evalBool(ex.Args[0])
+				var out []modTarget
+				for _, a := range ex.Args[1:] {
+					for _, tg := range e.evalModTargets(a) {
+						m := tg.match
+						out = append(out, modTarget{prefix: tg.prefix, match: func(ref, idx *Term) *Term { return c.And(cond, m(ref, idx)) }})
+					}
+				}
+				return out
 			case "fresh":
 				// everything allocated since the function was entered
 				top0 := x.entry.allocTop
